@@ -96,12 +96,28 @@ def prov_sort_key(repo, tier="quick"):
          obs.append(ob_fail(oid, fi, call, construct=why, instance="positions", reason="new node keys are not the positions of the nodes in the sorted attribute sequence")))
     # the key function: (value, key)
     okk = False
+    key_unread = None
+    local_defs = {st.name: st for st in ast.walk(fi.node) if isinstance(st, ast.FunctionDef) and st is not fi.node}
     for sub in ast.walk(fi.node):
         if isinstance(sub, ast.Call) and isinstance(sub.func, ast.Name) and sub.func.id == "sorted":
             at = cfg.owner.get(id(sub))
             for kw in sub.keywords:
-                if kw.arg == "key" and isinstance(kw.value, ast.Lambda):
-                    lam = kw.value
+                kv = kw.value
+                if kw.arg == "key" and isinstance(kv, ast.Name) and kv.id in local_defs:
+                    # a local function as key: read like a lambda when it is a single return, otherwise not decided here
+                    fdef = local_defs[kv.id]
+                    body_ = [x for x in fdef.body if not (isinstance(x, ast.Expr) and isinstance(x.value, ast.Constant))]
+                    if len(body_) == 1 and isinstance(body_[0], ast.Return) and body_[0].value is not None and len(fdef.args.args) == 1:
+                        kv = ast.Lambda(args=fdef.args, body=body_[0].value)
+                    else:
+                        key_unread = "key=%s is a local function with statements of its own" % kv.id
+                        continue
+                elif kw.arg == "key" and not isinstance(kv, ast.Lambda) and ast.unparse(kv) not in (
+                        "operator.itemgetter(1, 0)", "itemgetter(1, 0)", "operator.itemgetter(1)", "itemgetter(1)") and not isinstance(kv, ast.Attribute):
+                    key_unread = "key=%s" % ast.unparse(kv)[:40]
+                    continue
+                if kw.arg == "key" and isinstance(kv, ast.Lambda):
+                    lam = kv
                     p = lam.args.args[0].arg if lam.args.args else None
                     b = lam.body
 
@@ -122,8 +138,19 @@ def prov_sort_key(repo, tier="quick"):
                     okk = True
                 if kw.arg == "reverse" and not (isinstance(kw.value, ast.Constant) and kw.value.value is False):
                     okk = False
-    (obs.append(ob_ok(oid, fi, call, construct="key=lambda item: (value, old key)", instance="key", reason="sorted by membership first, old key as tie-break")) if okk else
-     obs.append(ob_fail(oid, fi, call, construct="sort key", instance="key", reason="the sort key does not start with the attribute value (membership)")))
+    if okk:
+        obs.append(ob_ok(oid, fi, call, construct="key=lambda item: (value, old key)", instance="key", reason="sorted by membership first, old key as tie-break"))
+    elif key_unread:
+        # what a function with statements computes as sort key is decided by executing it on the value shapes that occur
+        verdict = _sort_key_by_execution(fi, local_defs, key_unread)
+        if verdict is True:
+            obs.append(ob_ok(oid, fi, call, construct=key_unread, instance="key", reason="executed on representative entries: orders by the attribute value, then by the old key"))
+        elif verdict is None:
+            obs.append(ob_undecided(oid, fi, call, construct=key_unread, instance="key", reason="the sort key is computed by code the rule cannot read"))
+        else:
+            obs.append(ob_fail(oid, fi, call, construct=key_unread, instance="key", reason=verdict))
+    else:
+        obs.append(ob_fail(oid, fi, call, construct="sort key", instance="key", reason="the sort key does not start with the attribute value (membership)"))
     (obs.append(ob_ok(oid, fi, call, construct="relabel_nodes(graph, mapping)", instance="graph", reason="the argument graph is relabelled")) if g == graph else
      obs.append(ob_fail(oid, fi, call, construct="relabel_nodes(%s, ...)" % show(g), instance="graph", reason="not the argument graph is relabelled")))
     # every exit returns the relabelled graph
@@ -145,6 +172,35 @@ def prov_sort_key(repo, tier="quick"):
              obs.append(ob_fail(oid, caller, c2, construct="sort_nodes_by_attr(..., sort_attr=%s)" % show(sa), instance="call:" + caller.qualname,
                                 reason="the result is not ordered by coarse-node membership")))
     return obs
+
+
+def _sort_key_by_execution(fi, local_defs, what):
+    """The local key function, run by the abstract evaluator on (node, membership) entries whose numeric and textual orders
+    differ: True if it orders like (value, node), a reason if it does not, None if it cannot be executed."""
+    from ..absint import Evaluator, Unsupported, Raised
+    name = what.split("=", 1)[1].split(" ")[0]
+    fdef = local_defs.get(name)
+    if fdef is None or len(fdef.args.args) != 1:
+        return None
+    entries = [(0, [9]), (1, [10]), (2, [2]), (3, [10]), (4, [100]), (5, [9])]
+    keys = []
+    for node, value in entries:
+        ev = Evaluator()
+        try:
+            kind, val = ev.run_function(fdef, {fdef.args.args[0].arg: (node, value)})
+        except (Unsupported, Raised, Exception):
+            return None
+        if kind != "return":
+            return None
+        keys.append(val)
+    try:
+        got = [entries[i][0] for i in sorted(range(len(entries)), key=lambda i: keys[i])]
+    except TypeError:
+        return None
+    want = [e[0] for e in sorted(entries, key=lambda e: (e[1], e[0]))]
+    if got == want:
+        return True
+    return "the key function orders the membership values %s as nodes %s; by value and old key the order is %s" % ([e[1] for e in entries], got, want)
 
 
 def prov_relative_attr(repo, tier="quick"):
